@@ -621,6 +621,81 @@ func rulesFastaAutomaton(c *Ctx, r *Report) {
 		}
 	}
 	r.Extra["fasta_automaton_transitions_checked"] = 4 * 256
+	// TAIL: what happens after the loop (end of input, or next record found) depends only on the error and on
+	// whether anything was read — not on the state, the last byte or what the record holds so far
+	{
+		nl := naturalLoop(m.header)
+		tail := map[*ssa.BasicBlock]bool{}
+		var grow func(b *ssa.BasicBlock)
+		grow = func(b *ssa.BasicBlock) {
+			if nl[b] || tail[b] {
+				return
+			}
+			tail[b] = true
+			for _, su := range b.Succs {
+				grow(su)
+			}
+		}
+		for b := range nl {
+			for _, su := range b.Succs {
+				grow(su)
+			}
+		}
+		var rec *ssa.Alloc
+		instrs(f, func(in ssa.Instruction) {
+			if al, ok := in.(*ssa.Alloc); ok && al.Heap && rec == nil {
+				if _, isStruct := al.Type().(*types.Pointer).Elem().Underlying().(*types.Struct); isStruct {
+					rec = al
+				}
+			}
+		})
+		stateV := m.inputs[stateIdx].v
+		var dep []string
+		for b := range tail {
+			iff, ok := lastInstr(b).(*ssa.If)
+			if !ok {
+				continue
+			}
+			seen := map[ssa.Value]bool{}
+			var visit func(v ssa.Value)
+			visit = func(v ssa.Value) {
+				if v == nil || seen[v] {
+					return
+				}
+				seen[v] = true
+				switch {
+				case v == stateV:
+					dep = append(dep, "the parser state")
+					return
+				case m.byteIn >= 0 && v == m.inputs[m.byteIn].v:
+					dep = append(dep, "the last byte")
+					return
+				case rec != nil && v == ssa.Value(rec):
+					dep = append(dep, "the record's content so far")
+					return
+				}
+				if in, ok := v.(ssa.Instruction); ok {
+					var ops []*ssa.Value
+					for _, op := range in.Operands(ops) {
+						visit(*op)
+					}
+				}
+			}
+			visit(iff.Cond)
+		}
+		accepts := false
+		instrs(f, func(in ssa.Instruction) {
+			if rt, ok := in.(*ssa.Return); ok && tail[rt.Block()] {
+				ops := retOperands(rt)
+				if len(ops) == 2 && isNilConst(ops[1]) && rec != nil && ops[0] == ssa.Value(rec) {
+					accepts = true
+				}
+			}
+		})
+		r.check(len(dep) == 0 && accepts, "FSM", where, "after the loop", pos,
+			"what is returned after the loop is decided by the read error and the read-anything flag only, and the record built so far is returned: input that ends without a final newline, in any state, yields its last record",
+			fmt.Sprintf("the decision after the loop depends on %v (record returned with nil error: %v): how the input ends (final newline or not, empty last line) changes what is returned", uniq(dep), accepts))
+	}
 	if len(bad) > 6 {
 		bad = append(bad[:6], fmt.Sprintf("… %d more", len(bad)-6))
 	}
